@@ -12,6 +12,7 @@ import (
 	"errors"
 	"fmt"
 	"os"
+	"runtime/pprof"
 	"sort"
 	"sync"
 	"time"
@@ -116,11 +117,38 @@ type tworker struct {
 	w     *world
 	label string
 	r     *rec
+	free  int // processes it spawns on its own (no link, trapping exits): only a node stop is responsible for them
+}
+
+// tfree: spawned by a worker without any link; traps exits (only an exit from its parent - as the node sends it when it stops - ends it)
+type tfree struct {
+	act.Actor
+	w     *world
+	label string
+	r     *rec
+}
+
+func (t *tfree) Init(args ...any) error {
+	t.w = args[0].(*world)
+	t.label = args[1].(string)
+	t.r = t.w.add(t.label, t.PID(), t.Parent(), "free")
+	t.r.inited = true
+	t.SetTrapExit(true)
+	return nil
+}
+func (t *tfree) HandleMessage(from gen.PID, message any) error { return nil }
+func (t *tfree) Terminate(reason error) {
+	t.w.mu.Lock()
+	t.r.termed = true
+	t.w.mu.Unlock()
 }
 
 func (t *tworker) Init(args ...any) error {
 	t.w = args[0].(*world)
 	t.label = args[1].(string)
+	if len(args) > 3 {
+		t.free = args[3].(int)
+	}
 	if len(args) > 2 && args[2].(bool) {
 		// pool worker / simple-one-for-one child: numbered by start order
 		t.w.mu.Lock()
@@ -131,6 +159,10 @@ func (t *tworker) Init(args ...any) error {
 	t.r = t.w.add(t.label, t.PID(), t.Parent(), "worker")
 	if ch := t.w.gate(t.w.holdInit, t.label); ch != nil {
 		<-ch
+	}
+	for i := 0; i < t.free && len(args) > 3; i++ {
+		label := fmt.Sprintf("%s/free%d", t.label, i+1)
+		t.Spawn(func() gen.ProcessBehavior { return &tfree{} }, gen.ProcessOptions{}, t.w, label)
 	}
 	t.w.mu.Lock()
 	fail := t.w.failInit[t.label]
@@ -205,7 +237,7 @@ func factoryFor(w *world, s Shape, label string, numbered bool) (gen.ProcessFact
 	case "pool":
 		return func() gen.ProcessBehavior { return &tpool{} }, []any{w, s, label}
 	}
-	return func() gen.ProcessBehavior { return &tworker{} }, []any{w, label, numbered}
+	return func() gen.ProcessBehavior { return &tworker{} }, []any{w, label, numbered, s.Size}
 }
 
 func (s *tsup) Init(args ...any) (act.SupervisorSpec, error) {
@@ -337,6 +369,10 @@ func (r *Runner) Run(c *Case) error {
 	var opt gen.NodeOptions
 	opt.Log.DefaultLogger.Disable = true
 	opt.Log.Level = gen.LogLevelDisabled
+	if os.Getenv("VERIF_TREEDEBUG") == "3" {
+		opt.Log.DefaultLogger.Disable = false
+		opt.Log.Level = gen.LogLevelError
+	}
 	opt.Network.Mode = gen.NetworkModeDisabled
 	n, err := node.Start(gen.Atom(name), opt, gen.Version{})
 	if err != nil {
@@ -539,7 +575,26 @@ func (r *Runner) Run(c *Case) error {
 			}
 			if op.Op == "stopnode" {
 				stopped = true
-				time.Sleep(20 * time.Millisecond)
+				// the process table is gone with the node: liveness is read from the Terminate callbacks, which run a moment after a
+				// process has left the table
+				deadline := time.Now().Add(2 * time.Second)
+				for time.Now().Before(deadline) {
+					w.mu.Lock()
+					pending := 0
+					for _, x := range w.recs {
+						if x.inited && !x.termed {
+							pending++
+						}
+					}
+					w.mu.Unlock()
+					if pending == 0 {
+						break
+					}
+					time.Sleep(5 * time.Millisecond)
+				}
+				if os.Getenv("VERIF_TREEDEBUG") == "2" && time.Now().After(deadline) {
+					pprof.Lookup("goroutine").WriteTo(os.Stderr, 1)
+				}
 			}
 			line.StopKind = op.Op
 			line.Stop = "ok"
@@ -555,7 +610,7 @@ func (r *Runner) Run(c *Case) error {
 				if op.Op == "stopnode" {
 					break // the node is gone: ProcessInfo is meaningless; goroutines are checked through inited/terminated records
 				}
-				if alive(n, x.pid) {
+				if x.kind != "free" && alive(n, x.pid) {
 					line.Left = append(line.Left, x.label)
 				}
 			}
